@@ -320,3 +320,6 @@ class VhdSuite(Suite):
 
 
 SUITES = {"vhd": VhdSuite()}
+
+from harness.readers import under_O  # noqa: E402
+SUITES["vhd_pyO"] = under_O(SUITES["vhd"])
